@@ -255,8 +255,11 @@ TRoot == /\ Good("root")
                        (IF Ev.rbf # Bf \/ Ev.rnf # NfName THEN {V("C05", "root record carries a different branch factor or node format", Ev.h)} ELSE {})
                        \cup (IF ~missing /\ ~newroot.ok THEN {V("C05", "loading the returned root does not give back the entries", Ev.h)} ELSE {})
                 \* C08 (its consequence for versions): one root name, one contents
-                v08 == IF Ev.res = "ok" /\ \E p \in names : p[2] = Ev.name /\ p[3] # es
-                       THEN {V("C08", "the same root name is returned for versions with different contents", Ev.h)} ELSE {}
+                v08 == (IF Ev.res = "ok" /\ \E p \in names : p[2] = Ev.name /\ p[3] # es
+                        THEN {V("C08", "the same root name is returned for versions with different contents", Ev.h)} ELSE {})
+                       \* ... the tree that the store holds under the returned name is itself a version with that root name
+                       \cup (IF Ev.res = "ok" /\ ~missing /\ Entries(Ev.link) # es
+                             THEN {V("C08", "the root name returned for a version is the name of a stored tree with different contents", Ev.h)} ELSE {})
                 v13 == IF Ev.res # "ok" \/ missing THEN {} ELSE
                        (IF ~(W \subseteq Reach(Ev.link)) THEN {V("C13", "writes a node that is not reachable from the returned root", Ev.h)} ELSE {})
                        \cup (IF mods = {} /\ (W # {} \/ Ev.link # base.root) THEN {V("C13", "nothing modified, yet nodes written or a different root returned", Ev.h)} ELSE {})
